@@ -16,7 +16,10 @@ def run(n):
     except OSError:
         pass
     obl = re.findall(r'(?m)^violated obligation: (\S+?): ', out)
-    return n, r.returncode, obl, line
+    rc = r.returncode
+    if rc == 1 and not re.search(r'(?m)^VIOLATION property=', out):
+        rc = 2   # exit 1 without a VIOLATION line is a crash of the driver, not a verdict
+    return n, rc, obl, line
 res = {}
 path = '/verif/seeded/RESULTS.json'
 if os.path.exists(path):
